@@ -385,10 +385,16 @@ func NewWorld(cfg Config) *World {
 		}
 	} else {
 		// (a pending lazy hook of another world must not capture this collection)
-		ch, th := shimctx.WithCancelHook, shimtime.TickerHook
-		shimctx.WithCancelHook, shimtime.TickerHook = nil, nil
-		w.C = column.NewCollection(opts)
-		shimctx.WithCancelHook, shimtime.TickerHook = ch, th
+		// The hook variables are WRITTEN only when such a hook is pending: the cleanup
+		// goroutine that NewCollection starts reads them, and an unconditional write
+		// here raced with that read in the race build (Corrections 19)
+		if ch, th := shimctx.WithCancelHook, shimtime.TickerHook; ch != nil || th != nil {
+			shimctx.WithCancelHook, shimtime.TickerHook = nil, nil
+			w.C = column.NewCollection(opts)
+			shimctx.WithCancelHook, shimtime.TickerHook = ch, th
+		} else {
+			w.C = column.NewCollection(opts)
+		}
 	}
 	for _, c := range cfg.Cols {
 		w.CreateColumn(c)
